@@ -1,6 +1,7 @@
 package main
 
 import (
+	"go/token"
 	"sort"
 	"strings"
 
@@ -391,6 +392,8 @@ func checkC12(c *Check) {
 			})
 		}
 		c.Ob("R5", "free-port counter and allocation flags are written only by the service loop", run.Pos(), bad == "" && n >= 3, "written from "+bad)
+		c.portTransitions(run)
+		c.inventoryClientRules("R4")
 	}
 }
 
@@ -503,4 +506,176 @@ func sentValueField(s *ssa.Send) ssa.Value {
 		}
 	}
 	return out
+}
+
+// portTransitions (R3): the free-external-port counter follows the deployment status of a reservation: its endpoint
+// count is subtracted exactly on the transition not-deployed -> deployed and added back exactly on deployed ->
+// not-deployed. Decided by enumerating the four (was deployed, is deployed) cases against the conditions that
+// dominate each update of the counter.
+func (c *Check) portTransitions(run *ssa.Function) {
+	l := c.L
+	n := 0
+	eachInstrDeep(run, func(i ssa.Instruction) {
+		st, ok := i.(*ssa.Store)
+		if !ok {
+			return
+		}
+		fa, isFA := st.Addr.(*ssa.FieldAddr)
+		if !isFA || fieldName(fa.X.Type(), fa.Field) != "availableExternalPorts" {
+			return
+		}
+		bo, isBO := st.Val.(*ssa.BinOp)
+		if !isBO || (bo.Op != token.ADD && bo.Op != token.SUB) {
+			return
+		}
+		fn := st.Parent()
+		// the assignment "res.allocated = <status == deployed>" that precedes the update
+		var flagStore *ssa.Store
+		eachInstr(fn, func(j ssa.Instruction) {
+			if s2, isSt := j.(*ssa.Store); isSt {
+				if f2, isF := s2.Addr.(*ssa.FieldAddr); isF && fieldName(f2.X.Type(), f2.Field) == "allocated" && instrDominates(s2, st) {
+					flagStore = s2
+				}
+			}
+		})
+		n++
+		inst := "free external ports " + map[bool]string{true: "+=", false: "-="}[bo.Op == token.ADD] + " endpoints of a reservation only on the matching status transition"
+		if flagStore == nil {
+			c.Ob("R3", inst, st.Pos(), false, "the update is not preceded by the assignment of the reservation's deployed flag")
+			return
+		}
+		statusEq, _ := flagStore.Val.(*ssa.BinOp) // status == deployed
+		classify := func(v ssa.Value) string {
+			if statusEq != nil && v == ssa.Value(statusEq) {
+				return "now"
+			}
+			if ld, isLd := v.(*ssa.UnOp); isLd && ld.Op == token.MUL {
+				if f3, isF := ld.X.(*ssa.FieldAddr); isF && fieldName(f3.X.Type(), f3.Field) == "allocated" {
+					if instrDominates(flagStore, ld) {
+						return "now"
+					}
+					return "prev"
+				}
+			}
+			return ""
+		}
+		type asg struct{ now, prev bool }
+		consistent := []asg{{false, false}, {false, true}, {true, false}, {true, true}}
+		val := func(a asg, w string) bool {
+			if w == "now" {
+				return a.now
+			}
+			return a.prev
+		}
+		for _, at := range factsAt(st.Block()) {
+			var keep []asg
+			for _, a := range consistent {
+				okA := true
+				switch at.Op {
+				case "true", "false":
+					if w := classify(at.X); w != "" {
+						okA = val(a, w) == (at.Op == "true")
+					}
+				case "eq", "neq":
+					// status == deployed written out again
+					if statusEq != nil && at.Y != nil && Sym(at.X) == Sym(statusEq.X) && Sym(at.Y) == Sym(statusEq.Y) {
+						okA = a.now == (at.Op == "eq")
+					} else if at.Y != nil {
+						wx, wy := classify(at.X), classify(at.Y)
+						if wx != "" && wy != "" {
+							okA = (val(a, wx) == val(a, wy)) == (at.Op == "eq")
+						}
+					}
+				}
+				if okA {
+					keep = append(keep, a)
+				}
+			}
+			consistent = keep
+		}
+		want := asg{now: true, prev: false}
+		if bo.Op == token.ADD {
+			want = asg{now: false, prev: true}
+		}
+		okT := len(consistent) == 1 && consistent[0] == want
+		desc := ""
+		for _, a := range consistent {
+			desc += "(was deployed=" + map[bool]string{true: "yes", false: "no"}[a.prev] + ", is deployed=" + map[bool]string{true: "yes", false: "no"}[a.now] + ") "
+		}
+		c.Ob("R3", inst, st.Pos(), okT, "the counter is updated in the cases "+desc+": ports are freed that were never taken, or taken twice ("+l.Pos(st.Pos())+")")
+	})
+	if n != 2 {
+		c.Ob("R3", "free external ports are adjusted once for deployed and once for no-longer-deployed", run.Pos(), false, "found "+itoa(n)+" updates of the counter")
+	}
+}
+
+// inventoryClientRules: (shared: C12-R4, C13-R4 — an order's reservation can only be released through the loop —,
+// C14-R6 — manifest updates of a deployed lease are routed by a successful lookup).
+func (c *Check) inventoryClientRules(rule string) {
+	l := c.L
+	run := l.Func("provider/cluster", "inventoryService", "run")
+	// the service's client-side entry points decide nothing themselves: every return of reserve / unreserve / lookup
+	// has passed the select that talks to the loop (the loop is the only place that knows the reservations)
+	for _, name := range []string{"reserve", "unreserve", "lookup"} {
+		fn := l.Func("provider/cluster", "inventoryService", name)
+		c.Analysed(fnName(fn))
+		okAll := true
+		nret := 0
+		for _, b := range fn.Blocks {
+			if r, isR := b.Instrs[len(b.Instrs)-1].(*ssa.Return); isR {
+				nret++
+				if !mustPass(fn, r, func(in ssa.Instruction) bool { _, isSel := in.(*ssa.Select); return isSel }) {
+					okAll = false
+				}
+			}
+		}
+		c.Ob(rule, name+" answers only after asking the inventory loop", fn.Pos(), okAll && nret > 0, "a return is reachable without the request having been put to the loop: the answer is computed from something other than the loop's reservation list")
+	}
+	// a lookup finds a reservation whatever its deployment status (manifest updates of a deployed lease look it up)
+	{
+		var lookSel *ssa.Select
+		lookIdx := -1
+		eachInstrDeep(run, func(i ssa.Instruction) {
+			if sel, isSel := i.(*ssa.Select); isSel {
+				for k, stt := range sel.States {
+					if strings.HasSuffix(strings.ReplaceAll(Sym(stt.Chan), "*", ""), "is.lookupch") {
+						lookSel, lookIdx = sel, k
+					}
+				}
+			}
+		})
+		okLook := lookSel != nil
+		why := "lookup case not found in the service loop"
+		if lookSel != nil {
+			home := lookSel.Parent()
+			// the case block
+			var caseBlk *ssa.BasicBlock
+			eachInstr(home, func(i ssa.Instruction) {
+				if ifi, isIf := i.(*ssa.If); isIf {
+					if b, isB := ifi.Cond.(*ssa.BinOp); isB && b.Op == token.EQL {
+						if ex, isEx := b.X.(*ssa.Extract); isEx && ex.Tuple == ssa.Value(lookSel) && ex.Index == 0 {
+							if k, isK := constInt(b.Y); isK && int(k) == lookIdx {
+								caseBlk = ifi.Block().Succs[0]
+							}
+						}
+					}
+				}
+			})
+			if caseBlk == nil {
+				okLook = false
+			} else {
+				eachInstrDeep(home, func(i ssa.Instruction) {
+					ifi, isIf := i.(*ssa.If)
+					if !isIf || !domLift(home, caseBlk, ifi) {
+						return
+					}
+					if strings.HasSuffix(Sym(ifi.Cond), ".allocated") || strings.Contains(Sym(ifi.Cond), ".allocated ") {
+						okLook = false
+						why = "the lookup skips reservations by their deployed flag (" + l.Pos(ifi.Pos()) + "): a deployed lease's reservation is reported as not found and its manifest updates are dropped"
+					}
+				})
+			}
+		}
+		c.Ob(rule, "lookup finds a reservation whatever its deployment status", run.Pos(), okLook, why)
+	}
 }
